@@ -205,8 +205,8 @@ type c12Rendering struct {
 	container int
 	cbe       bool
 	forms     []c12Form
-	values    []int // value kind per key (maps)
-	nestedKey int   // for value kind "nested map": index of the outer key it repeats
+	values    []int  // value kind per key (maps)
+	nestedKey int    // for value kind "nested map": index of the outer key it repeats
 	marked    []bool // maps only: key i carries a marker ("k<i>") in front of its encoding
 	log       []ev.Event
 	doc       []byte
